@@ -223,7 +223,7 @@ def run_bombs(ctx, cases, workers):
         return list(ex.map(run, cases))
 
 
-BOMB_SHAPES = ["arr", "obj", "mixed", "pad"]
+BOMB_SHAPES = ["arr", "obj", "mixed", "pad", "arrnf", "objnf"]
 
 
 def c16(ctx):
@@ -244,7 +244,7 @@ def c16(ctx):
     ns = [cap - 1, cap, cap + 1, cap + 2, 100000, 1000000] + ([10000000] if quick else [10000000, 50000000])
     cases = []
     for shape in BOMB_SHAPES:
-        ul = {"arr": 1, "obj": 5, "mixed": 6, "pad": 2}[shape]
+        ul = {"arr": 1, "obj": 5, "mixed": 6, "pad": 2, "arrnf": 3, "objnf": 12}[shape]
         lv = 2 if shape == "mixed" else 1
         for n in ns:
             nn = n // lv if n <= cap + 2 else n
@@ -263,7 +263,7 @@ def c16(ctx):
         for entry in ("geo", "har", "gltf", "ndjson"):
             cases.append((shape, 1000000, True, 0, entry))
         # a completed value / a string with an escaped quote / a completed member ahead of the nesting
-        for prefix in ("lead0", "leadq", "leadobj"):
+        for prefix in ("lead0", "leadq", "leadobj", "coords", "feat"):
             for n in (cap + 2, 1000000):
                 cases.append((shape, n, False, 0, "Detect", prefix))
                 cases.append((shape, n, False, 0, "ndjson", prefix))
